@@ -92,8 +92,9 @@ fn data_item(rng: &mut Rng) -> String {
 fn data_stmt(rng: &mut Rng) -> String {
     let n = rng.usize(5);
     let items: Vec<String> = (0..n).map(|_| data_item(rng)).collect();
-    let sep = rng.pick(&[",", ", ", " , ", ","]);
-    let mut s = format!("DATA{}{}", rng.pick(&[" ", "", "  "]), items.join(sep));
+    // (blanks that only Unicode calls blank — NBSP, ideographic space, VT — are text to BASIC)
+    let sep = rng.pick(&[",", ", ", " , ", ",", ",\u{a0}", ", \u{3000}", "\u{b},"]);
+    let mut s = format!("DATA{}{}", rng.pick(&[" ", "", "  ", " \u{a0}", "\u{3000}"]), items.join(sep));
     match rng.below(5) {
         0 => s.push_str(" : PRINT 1"),
         1 => s.push_str(":PRINT 2"),
